@@ -107,11 +107,17 @@ func runC19(c *CaseCtx) {
 			c.Log("reopen")
 			continue
 		case x < 11 && kvOnly:
-			if r.Intn(3) == 0 {
+			if r.Intn(2) == 0 {
 				// every record dead at the time of the Merge
 				var ops []Op
 				for _, k := range u.KVKeys {
-					ops = append(ops, Op{K: "Delete", B: u.Buckets[0], Key: k})
+					// only keys that were ever put (a tombstone for a key the bucket never held is itself a new key)
+					if _, ever := steer.KV[u.Buckets[0]][string(k)]; ever {
+						ops = append(ops, Op{K: "Delete", B: u.Buckets[0], Key: k})
+					}
+				}
+				if len(ops) == 0 {
+					continue
 				}
 				steps = append(steps, c19Step{Tx: TxSpec{Mode: "update", Ops: ops}})
 				for _, o := range ops {
